@@ -18,12 +18,12 @@ fn space_for(tier: Tier) -> (Space, usize) {
     let mut s = Space::new();
     match tier {
         Tier::Quick => {
-            s.ast("AN", 5, 64).ast("ANU", 3, 64).ast("ANQ", 4, 64);
+            s.ast("AN", 5, 64).ast("ANU", 3, 64).ast("ANQ", 4, 64).ast("ANI", 3, 64);
             s.list("flag strings", 1, 1);
             (s, 4)
         }
         Tier::Thorough => {
-            s.ast("AN", 5, 64).ast("ANU", 4, 64).ast("ANQ", 4, 64);
+            s.ast("AN", 5, 64).ast("ANU", 4, 64).ast("ANQ", 4, 64).ast("ANI", 4, 64);
             s.list("flag strings", 1, 1);
             (s, 5)
         }
@@ -77,7 +77,9 @@ impl Check for C12 {
             }
             out.shape = parsed.ast.shape();
             let dialects: &[bool] = if text.contains('^') || text.contains('$') || text.contains("(?:") { &[false] } else { &[false, true] };
-            for (flags, xsd) in FLAGS.iter().flat_map(|f| dialects.iter().map(move |d| (*f, *d))) {
+            // the case layer runs under flag i together with m and s
+            let menu: &[&str] = if scope_name.starts_with("ANI") { &["i", "mi", "si", "msi"] } else { &FLAGS };
+            for (flags, xsd) in menu.iter().flat_map(|f| dialects.iter().map(move |d| (*f, *d))) {
                 let fl = Fl::parse(flags);
                 let re = match common::compile(text, flags, xsd) {
                     Compiled::Ok(re) => re,
